@@ -380,6 +380,23 @@ def tlv_lists(tier, rng, k, n):
             yield ("tlv-big", expr(bytes([7]) + be16(ln), fill(ln, 0xAB), bytes([9, 0])), {})
 
 
+def max_headers(tier, rng, k, n):
+    """v2-max: complete headers whose declared length is at or just below the 16-bit maximum, of each family, alone and
+    followed by bytes -- the largest buffers a receiver must accept (16 + 65 535 bytes).  Every property stream that
+    caps its input size for speed never saw them; a limit that is a few bytes short of 65 551 shows only here."""
+    idx = 0
+    for declared in (65535, 65534, 65533, 65532, 65531, 65530, 65520, 65519):
+        for fam in range(4):
+            for trailer in (b"", b"x", SIG + bytes(4)):
+                idx += 1
+                if idx % n != k:
+                    continue
+                addr = bytes((13 * i + fam) % 256 for i in range(FAM_SIZE[fam]))
+                rest = declared - len(addr)
+                yield ("v2-max", expr(v2_fixed(0x21, fam * 16 + 1, declared), addr, bytes([4]) + be16(rest - 3), fill(rest - 3, 0), trailer),
+                       {"vc": 0x21, "fp": fam * 16 + 1, "declared": declared, "fam": fam})
+
+
 def literal_headed_sections():
     """TLV sections in which a TLV boundary is followed by a protocol literal -- the v2 signature, the v1 keywords, every
     byte-string literal of the crate's source -- read as (type, big-endian length) with a value that fits exactly, is
